@@ -1,4 +1,7 @@
 mod common;
+mod fixture;
+mod sched;
+mod c06;
 mod c12;
 mod c13;
 mod c14;
@@ -6,6 +9,9 @@ mod c15;
 mod c20;
 
 fn main() {
+    // no TLS is ever used by the harness; loading the system trust store costs 60 ms per reqwest client
+    std::env::set_var("SSL_CERT_FILE", "/dev/null");
+    std::env::set_var("SSL_CERT_DIR", "/nonexistent");
     let args: Vec<String> = std::env::args().skip(1).collect();
     let Some(which) = args.first().cloned() else {
         eprintln!("usage: vc <check> [--tier quick|thorough] [--replay file] [--wall-cap s]");
@@ -13,6 +19,35 @@ fn main() {
     };
     let opts = common::parse_opts(&args[1..]);
     let code = match which.to_ascii_lowercase().as_str() {
+        "bench-fx" => {
+            let rt = fixture::new_rt();
+            let t = std::time::Instant::now();
+            for _ in 0..20 {
+                let fx = fixture::Fx::new(rt.clone());
+                let th = fx.store().ensure_default().unwrap();
+                fx.answered_run(&th, "hi").unwrap();
+            }
+            println!("20 fixtures + run: {:?}", t.elapsed());
+            let t = std::time::Instant::now();
+            for _ in 0..20 {
+                let _fx = fixture::Fx::new(rt.clone());
+            }
+            println!("20 fixtures: {:?}", t.elapsed());
+            let t = std::time::Instant::now();
+            for _ in 0..20 {
+                let _c = reqwest::Client::new();
+            }
+            println!("20 reqwest clients: {:?}", t.elapsed());
+            let fx = fixture::Fx::new(rt.clone());
+            let th = fx.store().ensure_default().unwrap();
+            let t = std::time::Instant::now();
+            for _ in 0..100 {
+                fx.answered_run(&th, "hi").unwrap();
+            }
+            println!("100 runs: {:?}", t.elapsed());
+            0
+        }
+        "c06" => c06::run(opts),
         "c12" => c12::run(opts),
         "c13" => c13::run(opts),
         "c14" => c14::run(opts),
